@@ -13,6 +13,7 @@ VIOLATION is a false alarm of the machinery and is listed.
   T5 whole module re-emitted by ast.unparse (layout, quotes, comments gone)
   T6 drop else after a body that always leaves;  T7 the inverse (what follows becomes the else)
   T8 first call argument extracted into a local:  f(g(x))  ->  _a0 = g(x); f(_a0)
+  T9 two adjacent independent call-free assignments swapped;  T10 `else: pass` added to every if without else
 """
 import ast
 import copy
@@ -43,7 +44,7 @@ def run_one(args):
 def main(argv):
     props = check.PROPS
     jobs = 16
-    kinds = ['T1', 'T2', 'T3', 'T4', 'T5', 'T6', 'T7', 'T8']
+    kinds = ['T1', 'T2', 'T3', 'T4', 'T5', 'T6', 'T7', 'T8', 'T9', 'T10']
     if '--props' in argv:
         props = argv[argv.index('--props') + 1].split(',')
     if '--jobs' in argv:
